@@ -35,6 +35,7 @@
 #include <charconv>
 #include <cmath>
 #include <cstdint>
+#include <cstdio>
 #include <cstdlib>
 #include <cstring>
 #include <functional>
@@ -855,7 +856,7 @@ private:
     case JsonType::Int:
       return std::to_string(getInt());
     case JsonType::Double:
-      return std::to_string(getDouble());
+      return _formatDouble(getDouble());
     case JsonType::String:
       return _escapeString(getString());
     case JsonType::Array:
@@ -865,6 +866,31 @@ private:
     default:
       return "null";
     }
+  }
+
+  /// Shortest "%.{15,16,17}g" rendering that reads back as the same double;
+  /// always carries a '.', or an exponent so that it re-parses as a double.
+  static std::string _formatDouble(double d)
+  {
+    if (!std::isfinite(d))
+    {
+      return std::to_string(d); // not representable in JSON; unchanged behaviour
+    }
+    char buf[40];
+    for (int precision = 15; precision <= 17; ++precision)
+    {
+      std::snprintf(buf, sizeof(buf), "%.*g", precision, d);
+      if (std::strtod(buf, nullptr) == d)
+      {
+        break;
+      }
+    }
+    std::string text(buf);
+    if (text.find_first_of(".eE") == std::string::npos)
+    {
+      text += ".0";
+    }
+    return text;
   }
 
   std::string _serializeArray(const SerializeOptions &options, int depth) const
